@@ -95,15 +95,32 @@ def mesh_1d(check, proj, clsname):
 
 
 def averages(check, proj):
-    for name in ("average", "L1average", "L2average"):
-        f = proj.func("meshbase.virtualmesh.%s" % name)
-        ok = False
-        for n in ast.walk(f.node):
-            if isinstance(n, ast.Call) and isinstance(n.func, ast.Attribute) and n.func.attr == "average":
-                kws = {k.arg: unparse(k.value) for k in n.keywords}
-                if kws.get("weights") == "%s.vol()" % f.params[0]:
-                    ok = True
-        check.record("MESH-AVG", f.qualname, ok, "np.average(..., weights=self.vol()): volume weighted, exact for constants", f.loc(), key="weights")
+    """volume-weighted averages: the three methods are interpreted on the abstract 1D mesh (free
+    face array, symbolic ncell) with an arbitrary data array d; sums over cells are symbolic
+    (linear, index-free factors taken out), so  average == Sum(d*vol)/Sum(vol)  etc. are ring
+    identities, and exactness for a constant follows by substituting d := c"""
+    mb = MeshBuild(proj, "mesh1d")
+    A = mb.alg
+    mb.it.count_rf = mb.ncell_atom
+    xf = mb.final_xf()
+    vol = SArr(N, [(0, N, mb.stn.rel(xf, 1) - mb.stn.rel(xf, 0))])
+    d = mb.stn.input("d", N)
+    c = A.sym("cst")
+    cst = SArr(N, [(0, N, c)])
+    S = lambda arr: mb.stn.summation(arr, mb.ncell_atom)
+    mul = lambda a, b: mb.stn.zip_map(lambda u, v: u * v, a, b)
+    absd = mb.stn.zip_map(lambda u: A.abs(u), d)
+    want = {"average": (S(mul(d, vol)) / S(vol), c, "Sum(d*vol)/Sum(vol)", "c"),
+            "L1average": (S(mul(absd, vol)) / S(vol), A.abs(c), "Sum(|d|*vol)/Sum(vol)", "|c|"),
+            "L2average": (A.sqrt(S(mul(mul(d, d), vol)) / S(vol)), A.abs(c), "sqrt(Sum(d^2*vol)/Sum(vol))", "|c|")}
+    for name, (w_arr, w_cst, text, ctext) in want.items():
+        f = proj.resolve(mb.cls, name)
+        if f is None:
+            raise AnalysisError("mesh1d.%s not found (anchor vanished?)" % name)
+        got = mb.it.call_function(f, [mb.obj, d])
+        _decide(check, "MESH-AVG", f.qualname, f.loc(), A, got, w_arr, "%s(d) == %s for every data array and every face array (volume weighted)" % (name, text), key="weights")
+        gotc = mb.it.call_function(f, [mb.obj, cst])
+        _decide(check, "MESH-AVG", f.qualname, f.loc(), A, gotc, w_cst, "%s of a constant c == %s exactly" % (name, ctext), key="const")
 
 
 class Family:
@@ -131,7 +148,8 @@ def mesh_2d(check, proj):
     it = Interp(proj, dom)
     nx, ny = A.sym("nx", positive=True), A.sym("ny", positive=True)
     lx, ly = A.sym("lx", positive=True), A.sym("ly", positive=True)
-    it.np_hooks = {"arange": lambda args, kw: Family(A, it.lift(args[0]), A.const(1), A.const(0)),
+    it.np_hooks = {"builtin:slice": lambda args, kw: Family(A, it.lift(args[1]) - it.lift(args[0]), A.const(1), it.lift(args[0])),
+                   "arange": lambda args, kw: Family(A, it.lift(args[0]), A.const(1), A.const(0)),
                    "repeat": lambda args, kw: ("repeat", it.lift(args[0]), it.lift(args[1]))}
     obj = SelfObj(cls, {})
     init = proj.resolve(cls, "__init__")
